@@ -24,6 +24,9 @@ var schedImports = map[string][2]string{
 	"sync/atomic": {"atomic", modPath + "/verifshim/vatomic"},
 }
 
+// schedImported: the last rewriteSched call added the vsched import
+var schedImported bool
+
 type schedRewriter struct {
 	fset    *token.FileSet
 	changed bool
@@ -78,6 +81,7 @@ func rewriteSched(fset *token.FileSet, f *ast.File) (bool, error) {
 	if rw.err != nil {
 		return false, rw.err
 	}
+	schedImported = rw.changed
 	if rw.changed {
 		addImport(f, "vsched", modPath+"/verifshim/vsched")
 		// synthesized nodes have no positions: drop the comments inside the file body
